@@ -190,6 +190,17 @@ func (w *parseWork) prefixCall(j exhJob, k int) pparse.Call {
 
 // seededCall draws one input of the seeded workload.
 func (w *parseWork) seededCall(r *simrt.RNG, thorough bool) pparse.Call {
+	c := w.seededCall0(r, thorough)
+	if c.Entry == "file" {
+		// one file in twelve starts with a byte-order mark, a shebang, blank lines, ...
+		if s, ok := corpus.WithPrelude(r, c.Input, 12); ok {
+			c.Input, c.Kind = s, c.Kind+"+prelude"
+		}
+	}
+	return c
+}
+
+func (w *parseWork) seededCall0(r *simrt.RNG, thorough bool) pparse.Call {
 	corp := w.corp
 	base := func() string {
 		if r.Intn(8) == 0 {
